@@ -77,6 +77,18 @@ def theory_configs(r, tier):
                 out.append((text, dict(APP),
                             ['--strategy', st2, '-j', '1'],
                             {'strategy': st2, 'jobs': 1, 'n': 'T0' + st2}))
+    # a grouped ddmin step that introduces several fresh variables at once
+    fresh = ('(declare-const a Int)\n(declare-const b Int)\n'
+             '(declare-const c Int)\n(declare-const d Int)\n'
+             '(assert (> (+ a b) (* c d)))\n(assert (> (- a c) (* b d)))\n'
+             '(check-sat)\n')
+    for k, extra in enumerate((['--disable-all', '--introduce-fresh-variables'],
+                               ['--no-constants', '--no-substitute-children',
+                                '--no-replace-by-variable'], [])):
+        out.append((fresh, {'mode': 'subseq',
+                            'markers': ['assert', '>', 'check-sat']},
+                    ['--strategy', 'ddmin', '-j', '1'] + extra,
+                    {'strategy': 'ddmin', 'jobs': 1, 'n': 'F%d' % k}))
     return out
 
 
